@@ -193,12 +193,15 @@ structure NoOofAt (M : Machine) (obj : HostVal) (f : Nat) : Prop where
   S : ∀ s env out e env' o, execS M obj f s env out = .failed e env' o → NotOof e
   Ss : ∀ ss env out e env' o, execSs M obj f ss env out = .failed e env' o → NotOof e
   I : ∀ idx x body it k env out e env' o, execIter M obj f idx x body it k env out = .failed e env' o → NotOof e
+  A : ∀ v cs env out e env' o, execArms M obj f v cs env out = .done (.failed e env' o) → NotOof e
+  R : ∀ v es b env out e env' o, execArm M obj f v es b env out = .done (.failed e env' o) → NotOof e
+  D : ∀ cs env out e env' o, execDefaults M obj f cs env out = .failed e env' o → NotOof e
 
 theorem exec_noof (M : Machine) (obj : HostVal) : ∀ f, NoOofAt M obj f
-  | 0 => by constructor <;> intros <;> simp_all [execE, execS, execSs, execIter]
+  | 0 => by constructor <;> intros <;> simp_all [execE, execS, execSs, execIter, execArms, execArm, execDefaults]
   | f + 1 => by
     have ih := exec_noof M obj f
-    refine ⟨?_, ?_, ?_, ?_⟩
+    refine ⟨?_, ?_, ?_, ?_, ?_, ?_, ?_⟩
     · intro x env out e env' o h
       cases x <;> simp only [execE] at h
       case assign name v =>
@@ -243,6 +246,10 @@ theorem exec_noof (M : Machine) (obj : HostVal) : ∀ f, NoOofAt M obj f
             cases hr : resetVal iv with
             | ok it => simp only [hr] at h; exact ih.I _ _ _ _ _ _ _ _ _ _ h
             | error y => simp only [hr, Outcome.failed.injEq] at h; rw [← h.1]; exact resetVal_noof hr
+      case switchE v cs =>
+        cases ha : execArms M obj f v cs env out with
+        | done o2 => simp only [ha] at h; subst h; exact ih.A _ _ _ _ _ _ _ ha
+        | next e2 o2 => simp only [ha] at h; exact ih.D _ _ _ _ _ _ h
       all_goals (simp only [Outcome.failed.injEq] at h; rw [← h.1]; simp [NotOof])
     · intro s env out e env' o h
       cases s with
@@ -281,5 +288,67 @@ theorem exec_noof (M : Machine) (obj : HostVal) : ∀ f, NoOofAt M obj f
         | returned a b d => simp at h
         | diverged => simp at h
         | failed a b d => simp only [Outcome.failed.injEq] at h; rw [← h.1]; exact ih.Ss _ _ _ _ _ _ hb
+    · intro v cs env out e env' o h
+      cases cs with
+      | nil => simp [execArms] at h
+      | cons c rest =>
+        obtain ⟨isDef, es, b⟩ := c
+        simp only [execArms] at h
+        cases isDef with
+        | true => simp only [↓reduceIte] at h; exact ih.A _ _ _ _ _ _ _ h
+        | false =>
+          simp only [Bool.false_eq_true, ↓reduceIte] at h
+          cases ha : execArm M obj f v es b env out with
+          | done o2 => simp only [ha, ArmOut.done.injEq] at h; subst h; exact ih.R _ _ _ _ _ _ _ _ ha
+          | next e2 o2 => simp only [ha] at h; exact ih.A _ _ _ _ _ _ _ h
+    · intro v es b env out e env' o h
+      cases es with
+      | nil => simp [execArm] at h
+      | cons x rest =>
+        simp only [execArm] at h
+        cases hv : evalE M obj env v out with
+        | mk res o1 =>
+          cases res with
+          | error y => simp only [hv, ArmOut.done.injEq, Outcome.failed.injEq] at h; rw [← h.1]; exact evalE_noof M obj env v out y o1 hv
+          | ok vv =>
+            simp only [hv] at h
+            cases hx : evalE M obj env x o1 with
+            | mk res2 o2 =>
+              cases res2 with
+              | error y => simp only [hx, ArmOut.done.injEq, Outcome.failed.injEq] at h; rw [← h.1]; exact evalE_noof M obj env x o1 y o2 hx
+              | ok xv =>
+                simp only [hx] at h
+                cases hc : caseOp M vv xv with
+                | error y =>
+                  simp only [hc, ArmOut.done.injEq, Outcome.failed.injEq] at h
+                  rw [← h.1]
+                  unfold caseOp at hc
+                  split at hc
+                  · cases hc
+                  · split at hc
+                    · exact callMatch_noof hc
+                    · cases hc
+                | ok p =>
+                  obtain ⟨t, o3⟩ := p
+                  simp only [hc] at h
+                  split at h
+                  · simp only [ArmOut.done.injEq] at h; exact ih.Ss _ _ _ _ _ _ h
+                  · exact ih.R _ _ _ _ _ _ _ _ h
+    · intro cs env out e env' o h
+      cases cs with
+      | nil => simp [execDefaults] at h
+      | cons c rest =>
+        obtain ⟨isDef, es, b⟩ := c
+        simp only [execDefaults] at h
+        cases isDef with
+        | false => simp only [Bool.false_eq_true, ↓reduceIte] at h; exact ih.D _ _ _ _ _ _ h
+        | true =>
+          simp only [↓reduceIte] at h
+          generalize hb : execSs M obj f b env out = ob at h
+          cases ob with
+          | normal e2 o2 => exact ih.D _ _ _ _ _ _ h
+          | returned a b2 d => simp at h
+          | diverged => simp at h
+          | failed a b2 d => simp only [Outcome.failed.injEq] at h; rw [← h.1]; exact ih.Ss _ _ _ _ _ _ hb
 
 end EvalFilter.Exec
